@@ -35,6 +35,7 @@ def analyse(prop: str, repo: str, tier: str, seed: int, sources=None, quiet: boo
         "classes": len(prog.classes),
         "lines": sum(s.count("\n") + 1 for (_, s, _) in srcs.values()),
     }
+    rep.analysed["normalisation"] = [f"{m.name}: {x}" for m in prog.modules.values() for x in m.inlined] or ["no helper inlined"]
     mod = importlib.import_module(f"ddsverif.rules.{prop.lower()}")
     try:
         mod.run(ctx)
